@@ -1,11 +1,11 @@
 package main
 
 import (
-	"sort"
 	"fmt"
 	"go/ast"
 	"go/token"
 	"go/types"
+	"sort"
 	"strings"
 )
 
@@ -29,6 +29,7 @@ func checkC07(c *Check, a *Anchors) {
 	c06OnceKey(c, a) // two different tasks that share a run-once key wait for each other's execution: a dependency between them deadlocks
 	c07SlotAPIDirect(c, a)
 	c07NoLockAcrossRun(c, a)
+	c03StopOnError(c, a) // "cyclic references end with an error": the call-count error travels up through the cmds loops of the cycle; a loop that continues after anything but an ignored exit status swallows it
 }
 
 func c07SlotPaired(c *Check, a *Anchors) {
@@ -288,7 +289,7 @@ func c07RecursionGated(c *Check, a *Anchors) {
 	rt := a.RunTask
 	info := rt.Info()
 	var gate *ast.IfStmt
-	gateStmt := map[*ast.IfStmt]*ast.IfStmt{} // gate (possibly in a helper) -> the top-level statement of RunTask that applies it
+	gateStmt := map[*ast.IfStmt]*ast.IfStmt{}    // gate (possibly in a helper) -> the top-level statement of RunTask that applies it
 	inverted := map[*ast.IfStmt]*ast.BlockStmt{} // gate written as `if count < Max { return nil }`: the statements that follow it
 	scan := func(list []ast.Stmt) *ast.IfStmt {
 		var g *ast.IfStmt
